@@ -4,7 +4,8 @@
    the real [re], callbacks as truth tables over node identities, identity
    matches) and a list of queries; the observation is the list of answers. *)
 From Coq Require Import List ZArith Bool Arith.
-From NT Require Import Sx Rose Search SearchProofs.
+From NT Require Import Sx Rose SearchProofs.
+From NT Require Export Search.   (* the case files name its constructors *)
 Import ListNotations.
 
 Definition Tz (id : Z) (i : info) (ch : list rt) : rt := T (Z.to_nat id) i ch.
@@ -22,9 +23,10 @@ Definition spec_of (m : matcher) : matchspec :=
   end.
 
 Inductive query :=
-| QNodeFindAll (start : Z) (data : option did) (mt : option Z) (data_id : option did) (add_self : bool) (k : Z)
+| QNodeFindAll (start : Z) (data : option did) (mt : option Z) (data_id : option did) (ks : list Z)
+    (* a sweep: add_self in [false; true] x max_results in ks *)
 | QNodeFindFirst (start : Z) (data : option did) (mt : option Z) (data_id : option did)
-| QTreeFindAll (data : option did) (mt : option Z) (data_id : option did) (k : Z)
+| QTreeFindAll (data : option did) (mt : option Z) (data_id : option did) (ks : list Z)
 | QTreeFindFirst (data : option did) (mt : option Z) (data_id : option did) (node_id : option Z)
 | QGet (k : key)
 | QContains (k : key)
@@ -52,9 +54,12 @@ Definition get_matcher (ms : list matcher) (mt : option Z) : res (option matchsp
 Definition run_query (st : tstate) (ms : list matcher) (q : query) : sx :=
   let f := t_forest st in
   match q with
-  | QNodeFindAll s data mt data_id add_self k =>
+  | QNodeFindAll s data mt data_id ks =>
       match start_of f (Z.to_nat s), get_matcher ms mt with
-      | Some s', Ok mt' => sx_res sx_nodes (node_find_all (iterator f s') data mt' data_id add_self (Z.to_nat k))
+      | Some s', Ok mt' =>
+          L (map (fun add_self =>
+                    L (map (fun k => sx_res sx_nodes (node_find_all (iterator f s') data mt' data_id add_self (Z.to_nat k))) ks))
+                 [false; true])
       | _, _ => L [A 1%Z; sx_nat EModel]
       end
   | QNodeFindFirst s data mt data_id =>
@@ -62,9 +67,9 @@ Definition run_query (st : tstate) (ms : list matcher) (q : query) : sx :=
       | Some s', Ok mt' => sx_res sx_onode (node_find_first (iterator f s') data mt' data_id)
       | _, _ => L [A 1%Z; sx_nat EModel]
       end
-  | QTreeFindAll data mt data_id k =>
+  | QTreeFindAll data mt data_id ks =>
       match get_matcher ms mt with
-      | Ok mt' => sx_res sx_ids (tree_find_all st data mt' data_id (Z.to_nat k))
+      | Ok mt' => L (map (fun k => sx_res sx_ids (tree_find_all st data mt' data_id (Z.to_nat k))) ks)
       | Err e => L [A 1%Z; sx_nat e]
       end
   | QTreeFindFirst data mt data_id node_id =>
